@@ -7,7 +7,7 @@ PROP = 'C20'
 REJECTIONS = ['wrong-type', 'outside-enum', 'non-numeric', 'wrong-ref-class', 'bad-origin-ref', 'bad-cast-dtype',
               'duplicate-dataset', 'unknown-keyword', 'name-not-str', 'bad-assign', 'frame-no-channels', 'units-on-unitless']
 FAILED_WRITES = ['missing-data', 'inconsistent-dimension', 'flush-error', 'hc-breach-at-write', 'unequal-rows',
-                 'index-not-1d', 'hc-nonuniform-index']
+                 'index-not-1d', 'hc-nonuniform-index', 'incomplete-then-completed']
 META = {
     'level': 'fault_enumeration',
     'rule': ('one evaluation = one history pair: the specification with rejected add_*/assignment calls (or a failed write) '
@@ -540,6 +540,41 @@ def run_case(case):
         second = S.do_write(sp, b, path, harness.scratch_dir(), to_idx=keep)
         fresh_spec = copy.deepcopy(sp)
         fresh_spec['write']['to_idx'] = keep
+    elif cause == 'incomplete-then-completed':
+        # a write refused because the file is not complete yet (no channels / no frames), then the rest is added
+        types = ['zone', 'axis', 'equipment', 'comment', 'long_name', 'tool', 'message']
+        sp = gen.base_spec(8192)
+        sp['write'] = {'output_chunk_size': 2 ** 16}
+        ops = sp['ops']
+        ops.append(gen.origin_op('ORIGIN', fsn=3))
+        for j, t in enumerate(r.sample(types, r.choice([1, 2, 3]))):
+            ops.append({'op': t, 'name': f'EARLY-{j}', 'attrs': {}})
+        with_channels = r.random() < 0.5
+        if with_channels:
+            ops.append(gen.channel_op('CH-EARLY', '<f4', (3,), fill={'kind': 'pos', 'tag': 1}))
+        k_ = len(ops)
+        if not with_channels:
+            ops.append(gen.channel_op('CH-LATE', '<f4', (3,), fill={'kind': 'pos', 'tag': 2}))
+        for j, t in enumerate(r.sample(types, r.choice([0, 1, 2]))):
+            ops.append({'op': t, 'name': f'MIDDLE-{j}', 'attrs': {}})
+        ch_i = next(i_ for i_, o in enumerate(ops) if o['op'] == 'channel')
+        ops.append(gen.frame_op('FRAME', [ch_i]))
+        for j, t in enumerate(r.sample(types, r.choice([0, 1, 2]))):
+            ops.append({'op': t, 'name': f'LATE-{j}', 'attrs': {}})
+        for o in ops:
+            o['lf'] = 0
+        fresh_spec = copy.deepcopy(sp)
+        part = copy.deepcopy(sp)
+        part['ops'] = part['ops'][:k_]
+        b = S.build(part)
+        first = S.do_write(part, b, path, harness.scratch_dir())
+        for i_ in range(k_, len(ops)):
+            try:
+                S.run_op(b, i_, ops[i_], 'inline')
+                b.outcomes.append(('ok',))
+            except Exception as e:  # noqa
+                b.outcomes.append(('exc', type(e).__name__, str(e)[:200]))
+        second = S.do_write(sp, b, path, harness.scratch_dir())
     elif cause == 'unequal-rows':
         ci, co = chans[-1]
         import numpy as np
